@@ -22,6 +22,18 @@ pub enum BodySpec {
     Events(Vec<(Option<String>, String)>),
 }
 
+/// What is on disk for a file body of recorded length `n`: in a share of the runs the file
+/// has grown since its length was recorded (a log being appended to); the response must
+/// still carry exactly the first `n` bytes.
+fn file_content(seed: u32, n: usize) -> Vec<u8> {
+    let mut data = content(seed, n);
+    if gen::ratio(1, 4) {
+        data.extend_from_slice(b"GROWN-AFTER-THE-LENGTH-WAS-RECORDED");
+        gen::count("probe.file_longer_than_declared");
+    }
+    data
+}
+
 #[derive(Clone, Debug)]
 pub struct RSpec {
     pub code: u16,
@@ -102,7 +114,10 @@ fn gen_events() -> Vec<(Option<String>, String)> {
     (0..n)
         .map(|i| {
             let ty = if gen::ratio(1, 3) { Some(format!("type{i}")) } else { None };
-            (ty, format!("event-{i}-{}", gen::below(1000)))
+            // sizes with 1, 2, 3 and 4 hex digits in one stream (a size line must not depend on the previous chunk)
+            let pad = gen::pick(&[0usize, 0, 0, 12, 250, 300, 4090, 5000]);
+            let data = if pad == 0 && gen::ratio(1, 3) { format!("{i}") } else { format!("event-{i}-{}{}", gen::below(1000), "x".repeat(pad)) };
+            (ty, data)
         })
         .collect()
 }
@@ -193,12 +208,12 @@ pub fn build(spec: &RSpec, dir: &RunDir, tag: &str) -> Response {
         BodySpec::Vec(n, s) => ResponseBody::Vec(content(*s, *n)),
         BodySpec::File(n, s) => {
             let p = dir.path.join(format!("body-{tag}"));
-            std::fs::write(&p, content(*s, *n)).unwrap();
+            std::fs::write(&p, file_content(*s, *n)).unwrap();
             ResponseBody::File(p, *n as u64)
         }
         BodySpec::TempFile(n, s) => {
             let tf = temp_file::TempFile::in_dir(&dir.path).unwrap();
-            std::fs::write(tf.path(), content(*s, *n)).unwrap();
+            std::fs::write(tf.path(), file_content(*s, *n)).unwrap();
             ResponseBody::TempFile(tf, *n as u64)
         }
         BodySpec::Events(evs) => {
@@ -387,12 +402,12 @@ pub fn spec() -> PropertySpec {
     PropertySpec {
         id: "C06",
         level: "exploration",
-        rule: "write_http_response into a scripted sink (accepts 1..n bytes per call, Pending between calls and on flush, all from the tape); file bodies read through the simulated async-fs with short reads and Pending. Responses generated over status 100-999, all ContentType variants, 0-20 extra fields (token names over all tchar, printable-ASCII+HTAB values, names colliding case-insensitively with content-type/content-length/transfer-encoding once and twice), close flag, body in {static str, static bytes, Vec, File, TempFile, event stream with 0-5 queued events}; large stage uses sizes {65535, 65536, 65537, 200000, 1 MiB+1, 3 MiB}. Oracle: independent strict response parser must recover status, application fields in order, body; automatic-field rules; refusal with zero bytes written when a framing/automatic field would be duplicated; identical parsed content under a second sink schedule. distinct = hash of the generated response spec; non-trivial = has extra fields or a body.",
+        rule: "write_http_response into a scripted sink (accepts 1..n bytes per call, Pending between calls and on flush, all from the tape); file bodies read through the simulated async-fs with short reads and Pending. Responses generated over status 100-999, all ContentType variants, 0-20 extra fields (token names over all tchar, printable-ASCII+HTAB values, names colliding case-insensitively with content-type/content-length/transfer-encoding once and twice), close flag, body in {static str, static bytes, Vec, File, TempFile (in a quarter of the runs the file on disk is longer than the recorded length), event stream with 0-5 queued events whose chunk sizes mix 1 to 4 hex digits}; large stage uses sizes {65535, 65536, 65537, 200000, 1 MiB+1, 3 MiB}. Oracle: independent strict response parser must recover status, application fields in order, body; automatic-field rules; refusal with zero bytes written when a framing/automatic field would be duplicated; identical parsed content under a second sink schedule. distinct = hash of the generated response spec; non-trivial = has extra fields or a body.",
         scenarios: vec![
             Scenario { name: "c06.small", property: "C06", func: small, runs_quick: 2_000_000, runs_thorough: 40_000_000, doc: "small bodies, all variants" },
             Scenario { name: "c06.large", property: "C06", func: large, runs_quick: 2_000, runs_thorough: 40_000, doc: "bodies around 64 KiB .. 3 MiB" },
         ],
-        required_probes: vec!["probe.must_refuse", "probe.chunked_body", "probe.file_body"],
+        required_probes: vec!["probe.must_refuse", "probe.chunked_body", "probe.file_body", "probe.file_longer_than_declared"],
         components: components_stream(),
         assumptions: vec!["field values without leading/trailing blanks and without CR/LF (outside the property's input class otherwise)", "application fields named `connection` are not generated (the property lists no rule for them)"],
     }
